@@ -452,3 +452,16 @@ func init() {
 		return notHandled{}
 	}
 }
+
+func init() {
+	// github.com/stoewer/go-strcase.SnakeCase of a symbolic string: some string (over-approximation: the callers only
+	// splice it into a statement); concrete operands run the real code
+	intrinsics["github.com/stoewer/go-strcase.SnakeCase"] = func(fr *frame, a []value) value {
+		if _, ok := a[0].(string); ok {
+			return notHandled{}
+		}
+		v := X.fresh("snakecase", "String")
+		X.res.Notes = appendUniq(X.res.Notes, "strcase.SnakeCase of a symbolic string is an arbitrary string")
+		return symStr{v}
+	}
+}
